@@ -943,6 +943,12 @@ int exec_op(struct rthr *th, const struct pop *op)
 	return r;
 }
 
+void note_progress(struct rthr *th)
+{
+	if (th != NULL && th->sim > 0)
+		th->steps_at_progress = simk_thread_steps(th->sim);
+}
+
 static void run_actions(struct rthr *th, int ctx, int ctxid, int when)
 {
 	int i;
@@ -954,7 +960,9 @@ static void run_actions(struct rthr *th, int ctx, int ctxid, int when)
 			continue;
 		if (ctx == CTX_SETUP && op->when != 0 && op->when != th->cycle + 1)
 			continue;
+		note_progress(th);
 		exec_op(th, op);
+		note_progress(th);
 	}
 }
 
@@ -968,6 +976,7 @@ static void cb_enter(void *ckp, int kind, int band, int var, int64_t x1, int64_t
 	int id, stale = 0;
 
 	SEQ++;
+	note_progress(th);
 	if (ck == NULL || ck->magic != COOKIE_MAGIC || ck->id < 0 || ck->id >= PL->nobj) {
 		viol(kind == K_FD ? "C03.wrong_cookie" : "C01.stale_cb", "callback of kind %s with a bogus cookie", kind_name(kind));
 		finish(1);
@@ -1129,6 +1138,7 @@ static void obs_wait_enter(int tid, int prim, int64_t tmo, int nfds)
 		return;
 	ext3_wait_enter(th);
 	ext4_wait_enter(th);
+	note_progress(th);
 	th->nwaits++;
 	th->wait_tmo = tmo;
 	th->clock_at_wait = th->last_clock;
@@ -1328,8 +1338,21 @@ static void obs_time_advance(int64_t from, int64_t to)
 
 static void obs_budget(const char *what)
 {
+	int t;
 	if (VERBOSE)
 		fprintf(stderr, "budget exceeded: %s\n", what);
+	/* A run that ends because one thread used up most of the step budget inside a single library
+	 * call -- no callback entered, no kernel wait begun, no harness operation started meanwhile --
+	 * did not run out of budget, it is stuck in a loop inside the library. */
+	for (t = 0; t < PL->nthr; t++) {
+		struct rthr *th = &RT[t];
+		long since = simk_thread_steps(th->sim) - th->steps_at_progress;
+		if (th->sim > 0 && since > PL->cfg.max_steps / 2) {
+			viol("ANY.livelock", "thread %d made %ld intercepted calls inside one library call without returning, waiting or dispatching anything (step budget %ld)",
+			     t, since, (long)PL->cfg.max_steps);
+			finish(1);
+		}
+	}
 	ext_budget(what);
 	finish(2);
 }
